@@ -10,6 +10,7 @@ relation comparison (spec/ParserRef.tla) on them.
 from __future__ import annotations
 
 import re
+import signal
 from pathlib import Path
 
 import common
@@ -84,7 +85,32 @@ def flags_of(ctx) -> dict:
 CLEAN_FLAGS = {"stack": 0, "pre_parse": False, "begline_counter": 0, "begline_enabled": True}
 
 
-def parse(ctx, text: str, mode: str = "plain"):
+class SlowParse(BaseException):
+    pass
+
+
+class time_limit:
+    """Wall-clock limit for one parse (main thread of a worker process only)."""
+
+    def __init__(self, seconds):
+        self.seconds = seconds
+
+    def _fire(self, *a):
+        raise SlowParse()
+
+    def __enter__(self):
+        if self.seconds:
+            self.old = signal.signal(signal.SIGALRM, self._fire)
+            signal.setitimer(signal.ITIMER_REAL, self.seconds)
+
+    def __exit__(self, *a):
+        if self.seconds:
+            signal.setitimer(signal.ITIMER_REAL, 0)
+            signal.signal(signal.SIGALRM, self.old)
+        return False
+
+
+def parse(ctx, text: str, mode: str = "plain", limit: float = 0):
     """-> (root or None, exception-repr or None, flags)"""
     ctx.start_page("Pg")
     # the flags are re-initialised by hand so that a leftover of an earlier
@@ -94,8 +120,11 @@ def parse(ctx, text: str, mode: str = "plain"):
     ctx.begline_enabled = True
     ctx.parser_stack = []
     try:
-        root = ctx.parse(text, **MODES[mode])
+        with time_limit(limit):
+            root = ctx.parse(text, **MODES[mode])
         err = None
+    except SlowParse:
+        root, err = None, "TIMEOUT"
     except RecursionError as e:  # reported like any other exception
         root, err = None, "RecursionError: " + str(e)[:80]
     except Exception as e:  # noqa: BLE001
